@@ -221,8 +221,12 @@ def instr(res, idx, tier):
             hit = tab.lookup(row.iset, word)
             if hit is None or hit[0] is not row:
                 continue
-            for (cname, cfg), mode, ns, v, it in itertools.product(CONFIGS[1:3], MODES, (0, 1), V,
-                                                                  (0,) if row.iset == A32 else (0, 0xE8)):
+            # A/I/F background: both all-masked and all-clear for the instructions that write the masks (CPS, MSR),
+            # alternating for the others
+            touches_masks = row.cls.startswith(("Cps", "Msr"))
+            for (cname, cfg), mode, ns, v, it, aifsel in itertools.product(CONFIGS[1:3], MODES, (0, 1), V,
+                                                                          (0,) if row.iset == A32 else (0, 0xE8),
+                                                                          (0, 1) if touches_masks else (None,)):
                 full = dict(machine.base_config())
                 full.update(cfg)
                 if not valid_state(full, mode, ns):
@@ -239,8 +243,10 @@ def instr(res, idx, tier):
                 extra = {"scr": (ns | 0x30) if (res.cases & 1) else ns, rstate_spsr(mode) or "spsr_svc": v,
                          "elr_hyp": 0x00010B00, "event_register": bool(res.cases & 2)}
                 res.cases += 1
-                res.add_state(hash((word, cname, mode, ns, v, it)))
-                diffs, out, info = e.run(word, row, f, mode, regvals, nzcvq=(res.cases >> 2) & 0x1F, ge=0x5, it=it, extra=extra)
+                res.add_state(hash((word, cname, mode, ns, v, it, aifsel)))
+                aif = (0b111, 0b000)[aifsel] if aifsel is not None else (0b111, 0b000, 0b101, 0b010)[(res.cases >> 7) & 3]
+                diffs, out, info = e.run(word, row, f, mode, regvals, nzcvq=(res.cases >> 2) & 0x1F, ge=0x5, it=it, extra=extra,
+                                         aif=aif)
                 if diffs is None:
                     res.outcome("model-unpredictable-skipped")
                     continue
@@ -257,7 +263,7 @@ def instr(res, idx, tier):
                     res.fail("%s %s%s" % (row.cls, loc, sig),
                              "word %#x fields=%r config=%s mode=%s ns=%d value=%#x it=%#x | model->impl: %s" % (
                                  word, f, cname, machine.MODE_NAMES[mode], ns, v, it, machine.fmt_diff(diffs)),
-                             {"cls": row.cls, "word": word, "fields": f, "config": cname, "mode": mode, "ns": ns, "v": v, "it": it})
+                             {"cls": row.cls, "word": word, "fields": f, "config": cname, "mode": mode, "ns": ns, "v": v, "it": it, "aif": aif})
         res.sample({"row": row.cls, "pattern": row.pat})
 
 
